@@ -42,7 +42,8 @@ CONSTANTS MaxFields,     \* fields per generated top-level shape
           FixEmptyMap,   \* TRUE: an empty map writes nothing (standard); FALSE: a zero-length entry marks it
           Emit
 
-ScalarKinds == {"bool","int","i32","i64","s32","s64","uint","u32","u64","x32","x64","flt","dbl","str","byt","arr"}
+ScalarKinds == {"bool","int","i32","i64","s32","s64","uint","u32","u64","x32","x64","flt","dbl","str","byt","arr","arr7","arr15","arr16"}
+ArrKinds    == {"arr","arr7","arr15","arr16"}     \* byte arrays of 4, 7, 15 and 16 bytes (zero test runs word-wise)
 MsgKinds    == {"m1","m2","m3","m4"}
 Kinds       == ScalarKinds \cup MsgKinds
 MapKeyKinds == {"i32","str","u64"}
@@ -51,7 +52,7 @@ Cards       == {"one","ptr","rep","map"}
 \* wire type of a kind: 0 varint, 1 fixed64, 2 length-delimited, 5 fixed32
 WT(k) == CASE k \in {"x64","dbl"} -> 1
            [] k \in {"x32","flt"} -> 5
-           [] k \in {"str","byt","arr"} \cup MsgKinds -> 2
+           [] k \in {"str","byt"} \cup ArrKinds \cup MsgKinds -> 2
            [] OTHER -> 0
 
 F(k, c, n, mk) == [k |-> k, c |-> c, n |-> n, mk |-> mk]
@@ -239,7 +240,7 @@ FieldChoices ==
 \* shapes the package cannot express are left out: byte arrays and []byte behind a pointer,
 \* zigzag / fixed kinds only where a struct tag can request them
 Supported(f) ==
-  /\ (f.c = "ptr" => f.k \notin {"byt","arr"})
+  /\ (f.c = "ptr" => f.k \notin {"byt"} \cup ArrKinds)
   /\ (f.k \in {"s32","s64","x32","x64"} => f.n # 0 /\ f.c \in {"one","ptr"})
   /\ (f.c \in {"rep","map"} /\ f.n # 0 => f.k \notin {"s32","s64","x32","x64"})
 
